@@ -8,7 +8,7 @@ var commonAssumptions = []string{
 	"Go semantics as implemented by the gosym SSA interpreter (validated by native replay of sampled paths through the same harness)",
 	"integers are mathematical integers; every integer in the explored code is an index/length far below 2^63, so no wrap-around is reachable within the bounds",
 	"strings are byte vectors of concrete length with symbolic bytes (ASCII classes stated per harness)",
-	"Go maps: all iteration orders up to 4 entries are explored as fork choices; entries inserted during iteration are produced or skipped (both explored, at most one production per loop)",
+	"Go maps: all iteration orders of maps with up to 4 entries and all rotations of larger maps are explored as fork choices (unless a harness states insertion order only); entries inserted during iteration are produced or skipped (both explored, at most one production per loop)",
 }
 
 func registry() map[string]PropSpec {
@@ -279,6 +279,21 @@ func registry() map[string]PropSpec {
 			"empty-string values of omitempty fields (key: \"\", label: \"\") and empty containers (plugins: [], env: {}): whether dropping them is data loss is not settled by the statement; left to the C09 fixpoint check",
 		},
 		Assumptions: []string{"reflect.* over the engine heap; encoding/json.Marshal in the abstract JSON data model (documented dispatch, real MarshalJSON methods executed); reflections.Fields/GetField/GetFieldTag by their documented contracts", "net/url.Parse and path.Join models as in C17"},
+	})
+	add(PropSpec{
+		ID: "C06",
+		Harnesses: []HSpec{
+			{Pkg: "signature", Name: "c06_signsteps", Quick: map[string]int{"depth": 0, "width": 2}, Thorough: map[string]int{"depth": 1, "width": 2}, Unwind: [2]int{64, 64}, Budget: [2]int{120, 1500}, FixedMapOrder: true,
+				Models: []string{"net/url.Parse=vpModelURLParse", "path.Join=vpModelPathJoin"},
+				What:   "SignSteps over step lists of every kind mix (command, wait, input, trigger, group, unknown), pipeline env / step env overlaps, EdDSA/ES512/PS512 JWKs and an ES256 crypto.Signer: refusal iff an unknown step occurs anywhere; otherwise every command step at every depth has a signature naming the key's algorithm with exactly the expected sorted field list, it verifies, and nothing but Signature is written (step, plugins, caller env)"},
+			{Pkg: "signature", Name: "c06_signsteps", Quick: map[string]int{"depth": 2, "width": 1}, Thorough: map[string]int{"depth": 3, "width": 1}, Unwind: [2]int{64, 64}, Budget: [2]int{120, 1500},
+				Models: []string{"net/url.Parse=vpModelURLParse", "path.Join=vpModelPathJoin"},
+				What:   "same with one step per level and groups nested to depth 2 (quick) / 3 (thorough)"},
+		},
+		Outside: []string{"nesting depth 4 (bound: 2 quick / 3 thorough with one step per level; 0 / 1 with two steps per level); real cryptography (idealised)"},
+		Assumptions: []string{"ideal signature scheme: jws.Sign(k, alg, P) is the atom sigma(k, alg, P); jws.Verify succeeds iff the presented value is such an atom made with an offered key (same key-pair identity and algorithm) over an equal payload; values not produced by Sign never verify. Natively replays use real generated EdDSA/ES512/PS512/ES256 keys",
+			"canonical encoding: encoding/json.Marshal + jcs.Transform are injective on, and a function of, the JSON data model (member order and number spelling canonicalised); byte-level escaping/number formatting is the libraries' and is not covered",
+			"abstract jwk.Key / jwk.Set / crypto.Signer objects; thumbprint, x509 and sha256 calls (logging only) stubbed"},
 	})
 	return r
 }
